@@ -294,7 +294,7 @@ def reqKindWord : RequestType → String × String
   | .put _ spec => ("put", bytesToHex spec.target.bytes)
 
 /-- canonical line of a datagram the node sent, and its request key -/
-def canonOut (own : Id) (to : Addr) (m0 : Message) : String × Option (String × Nat) :=
+def canonOut (_own : Id) (to : Addr) (m0 : Message) : String × Option (String × Nat) :=
   -- what the peer sees is the datagram: encode and decode it
   let m := match Krpc.fromBytes (Krpc.toBytes m0) with
     | .ok (some m') => m'
@@ -304,7 +304,10 @@ def canonOut (own : Id) (to : Addr) (m0 : Message) : String × Option (String ×
   let ro := if m.readOnly then 1 else 0
   match m.mtype with
   | .request r =>
-    let r2 : Request := if r.requesterId == own then r else { r with requesterId := ⟨List.replicate 20 0⟩ }
+    -- put requests carry a random requester id, drawn in `HashMap` order on the implementation side
+    let r2 : Request := match r.rtype with
+      | .put _ _ => { r with requesterId := ⟨List.replicate 20 0⟩ }
+      | _ => r
     let (kind, target) := reqKindWord r.rtype
     (s!"{showAddr to} v={ver} ip={ip} ro={ro} q {showRequest r2}", some (s!"{showAddr to}/{kind}/{target}", m.tid.toNat))
   | .response r => (s!"{showAddr to} t={m.tid.toNat} v={ver} ip={ip} ro={ro} r {showReply (some (.response r))}", none)
@@ -639,6 +642,14 @@ def step (st : DState) (line : String) : DState × String :=
         | .ok none => "err"
         | .ok (some m) => s!"ok {showMsg m} | {bytesToHex (Krpc.toBytes m)}")
       | none => "bad-op")
+  | ["encint", t, seq, cas] => (st, match t.toNat?, seq.toInt?, optInt cas with
+      | some t, some seq, some cas =>
+        let m1 : Message := ⟨7, none, none, .request ⟨⟨List.replicate 20 1⟩,
+          .put [9] (.announceSignedPeer ⟨List.replicate 20 2⟩ t (List.replicate 32 3) (List.replicate 64 4))⟩, false⟩
+        let m2 : Message := ⟨7, none, none, .request ⟨⟨List.replicate 20 1⟩,
+          .put [9] (.putMutable ⟨List.replicate 20 2⟩ [1] (List.replicate 32 3) seq (List.replicate 64 4) none cas)⟩, false⟩
+        bytesToHex (Krpc.toBytes m1) ++ " " ++ bytesToHex (Krpc.toBytes m2)
+      | _, _, _ => "bad-op")
   | ["encann", implied, port] => (st, match port.toNat? with
       | some port =>
         let imp : Option Bool := if implied == "none" then none else if implied == "0" then some false else some true
@@ -756,6 +767,10 @@ def step (st : DState) (line : String) : DState × String :=
 partial def loop (h : IO.FS.Stream) (out : IO.FS.Stream) (st : DState) : IO Unit := do
   let line ← h.getLine
   if line.isEmpty then return ()
+  -- `decx <variant> <hex>` is `dec <hex>` for the model (the expectation is checked on the other side)
+  let line := match line.trimAscii.toString.splitOn " " with
+    | ["decx", _, h] => "dec " ++ h
+    | _ => line
   let (st', o) := step st line
   out.putStrLn o
   loop h out st'
